@@ -151,6 +151,32 @@ def run(tier):
             if ok:
                 records.append(rec)
                 meta[tid] = text
+        # inputs the plain load rejects are rejected, with the same exception class, under every flag combination
+        rejects = {"latin1.map": "MAP\n  NAME \"caf\u00e9\"  # comment\nEND\n".encode("latin-1"),
+                   "syntax.map": b"MAP\n  NAME # c\nEND\n",
+                   "unterminated.map": b"MAP\n  # c\n  NAME \"abc\nEND\n",
+                   "latin1inc.map": b"MAP\n  INCLUDE \"latin1part.map\" # c\nEND\n"}
+        with open(os.path.join(tmp, "latin1part.map"), "wb") as f:
+            f.write("NAME \"caf\u00e9\"\n".encode("latin-1"))
+        for name, body in sorted(rejects.items()):
+            fnr = os.path.join(tmp, name)
+            with open(fnr, "wb") as f:
+                f.write(body)
+            outcome = {}
+            for (pflag, cflag) in combos:
+                p, m = parsers[(pflag, cflag)]
+                ck.count()
+                try:
+                    m.transform(p.parse_file(fnr))
+                    outcome[(pflag, cflag)] = "accepted"
+                except Exception as ex:  # noqa: BLE001
+                    outcome[(pflag, cflag)] = type(ex).__name__
+            base_o = outcome[(False, False)]
+            for kk, o in outcome.items():
+                if o != base_o:
+                    ck.violation("C13|rejection-differs|%s|pos=%d,com=%d" % (name.split(".")[0], kk[0], kk[1]),
+                                 "%s: the plain load gives %s, with include_position=%s include_comments=%s it gives %s" % (name, base_o, kk[0], kk[1], o),
+                                 {"file": name, "bytes": repr(body)})
     finally:
         shutil.rmtree(tmp, ignore_errors=True)
     if len(records) < 0.5 * len(cases):
